@@ -8,6 +8,8 @@
 -/
 import EmitModel.Base.Sexp
 import EmitModel.Model.Otlp
+import EmitModel.Model.OtlpAll
+import EmitModel.Driver.C12
 
 namespace EmitModel.Driver.C14
 open EmitModel EmitModel.Otlp
@@ -99,6 +101,27 @@ def showShape (s : Shape) : String :=
 def showCfg (c : Cfg) : String :=
   (if c.logs then "l" else "-") ++ (if c.traces then "t" else "-") ++ (if c.metrics then "m" else "-")
 
+/-- The same decision taken by the emitter as a whole (Model/OtlpAll.lean): the event is emitted, every signal's
+    receiver runs to quiescence against an acknowledging collector, and the signal whose collector recorded it (or the
+    discard counter) is read off the end state. -/
+def routeThroughEmitter (c : Cfg) (e : Evt) : Option Outcome :=
+  let cfg : OtlpAll.Cfg :=
+    { logs := c.logs, traces := c.traces, metrics := c.metrics,
+      pipe := fun _ => { ch := Batcher.Cfg.real 10000, tr := .http, limit := 1000000, size := fun _ => 1 },
+      shape := fun _ => shapeOf e }
+  let net0 : Signal → Net := fun _ => { dead := false, script := [], slot := false, conns := 0, log := [] }
+  match OtlpAll.step cfg (OtlpAll.init net0) (.emit 0) with
+  | none => none
+  | some s =>
+    let run (p : OtlpPipe.St) (g : Signal) : Bool :=
+      let (p', quiet) := Driver.C12.pipeDrive (cfg.pipe g) 50 p
+      quiet && !p'.net.log.isEmpty
+    let hits := [(Signal.logs, run s.logs .logs), (Signal.traces, run s.traces .traces), (Signal.metrics, run s.metrics .metrics)].filter (·.2)
+    match hits, s.discarded with
+    | [(g, _)], [] => some (.signal g)
+    | [], [_] => some .discard
+    | _, _ => none
+
 def runC14 (line : String) : String :=
   match Sexp.parse line with
   -- THREADS × N un-kinded events into an emitter without logs: each is routed to `discard` (`routeEvt`), and the
@@ -115,6 +138,8 @@ def runC14 (line : String) : String :=
     | some c, some ext, some props =>
       let e : Evt := ⟨ext, props⟩
       let r := routeEvt c e
+      -- the composite must take the same decision (it routes on the event's shape: C14 `route_evt_shape`)
+      if routeThroughEmitter c e != some r then "COMPOSITE-MODEL-DISAGREES-WITH-ROUTE" else
       let sg := if !c.logs && !c.traces && !c.metrics then "trivial" else s!"sig={showCfg c},{showShape (shapeOf e)}{if extentFar ext then ",far" else ""}"
       s!"{showOutcome r}\t{sg}"
     | _, _, _ => "bad-op"
